@@ -210,14 +210,22 @@ theorem reqrem_execOp (s : St) (op : Op) : ∃ m, Req s m ∧ Rem m (execOp s op
   | getKey k => refine ⟨s, Req.refl s, ?_⟩; simp only [execOp]; split <;> exact Rem.refl s
   | getKeys => exact ⟨s, Req.refl s, Rem.refl s⟩
   | getKeysWithData => exact ⟨s, Req.refl s, Rem.refl s⟩
-  | resetRoutine k => exact ⟨s, Req.refl s, (sameG_resetKey s k).rem⟩
-  | restartRoutine k => exact ⟨s, Req.refl s, (sameG_restartKey s k).rem⟩
-  | resetAll =>
+  | resetRoutine k cs =>
+    simp only [execOp]
+    split
+    · exact ⟨s, Req.refl s, (sameG_resetKey s k).rem⟩
+    · exact ⟨s, Req.refl s, Rem.refl s⟩
+  | restartRoutine k cs =>
+    simp only [execOp]
+    split
+    · exact ⟨s, Req.refl s, (sameG_restartKey s k).rem⟩
+    · exact ⟨s, Req.refl s, Rem.refl s⟩
+  | resetAll cs =>
     refine ⟨s, Req.refl s, ?_⟩
     simp only [execOp]
     rw [foldl_fst resetAllStep (fun s k => (resetKey s k).1) (fun _ _ => rfl)]
     exact (foldl_sameG _ sameG_resetKey _ _).rem
-  | restartAll =>
+  | restartAll cs =>
     refine ⟨s, Req.refl s, ?_⟩
     simp only [execOp]
     rw [foldl_fst restartAllStep (fun s k => (restartKey s k).1) (fun _ _ => rfl)]
@@ -295,6 +303,11 @@ theorem sameG_recordInst (s : St) (g i : Nat) (x : Inst) (k : Nat) : SameG s (re
 the record -/
 theorem rem_step (s s' : St) (e : Ev) (hs : step s e = some s') (he : ∀ id, e ≠ .exec id) : Rem s s' := by
   cases e with
+  | cancelroot =>
+    simp only [step] at hs
+    split at hs
+    · simp at hs; subst hs; exact (sameG_congr (sameBut_cancelAll _).keys).rem
+    · simp at hs
   | nilnext k =>
     simp only [step] at hs
     split at hs
